@@ -351,6 +351,10 @@ fn c05_scenarios(thorough: bool) -> Vec<Scenario> {
                 v.push(mk(&format!("pb3_cfg_w{w}_f{f}"), w, None, w, data(f), 3, false, 3));
             }
         }
+        // deeper bounds for the smallest configuration with two frames in flight (measured: 1.2e5 executions
+        // at bound 4, 8.5e5 at bound 5)
+        v.push(mk("pb4_cfg_w1_f2", 1, None, 1, data(2), 7, false, 4));
+        v.push(mk("pb5_cfg_w1_f2", 1, None, 1, data(2), 7, false, 5));
         v.push(mk("cfg_w2_f4_ints", 2, None, 2, data(4), 9, false, 2));
         v.push(mk("cfg_w1_f4_ints", 1, None, 1, data(4), 9, false, 3));
         v.push(mk("cfg_w3_f2_ints", 3, None, 3, data(2), 0, false, 2));
@@ -493,6 +497,10 @@ fn c06_scenarios(thorough: bool) -> Vec<Scenario> {
         }
     }
     if thorough {
+        // bound 4 for one worker and two blocks, every fault script
+        for (name, script) in fault_scripts(2) {
+            v.push(mk(&format!("pb4_w1_f2_{name}"), 1, None, 1, script, 0, false, 4));
+        }
         for w in 1..=2usize {
             for f in 1..=3usize {
                 for (name, script) in fault_scripts(f) {
